@@ -23,7 +23,99 @@
 /* the static NCvcmaxcontig is reached by #include of putget.c (resolved through -I<REPO>, vk.cc_harness); the library's own
  * putget.o is then not pulled from libmfhdf.a, so SDwritedata/SDreaddata below run the same text */
 #define PUTGET_C "mfhdf/src/putget.c"
+
+/* The text of putget.c is compiled with three of its callees renamed, so that kind E (below) can see and steer what the data path does
+ * with its internal piece / buffer sizes:
+ *   Hwrite     -> hk_Hwrite:     while `hw_on` is set every call is logged as (position of the access element before the call, length);
+ *                                a call that sends one of the two conversion buffers is checked against that buffer (hk_piece_check below);
+ *   DFKconvert -> hk_DFKconvert: every call is logged (source, destination, number of elements): the blocks in which a request is converted
+ *                                must tile the caller's buffer (conv_tiles below);
+ *   calloc     -> hk_calloc:     the only calloc of putget.c is SDIresizebuf's (the conversion buffers tBuf / tValues); a request above
+ *                                `alloc_limit` bytes (when > 0) is refused, which drives the library into its "try half the size" loops. */
+typedef struct { long pos, len; } HwRec;
+#define HW_MAX 4096
+static HwRec hw_log[HW_MAX];
+static int   hw_on = 0, hw_n = 0, hw_lost = 0;
+static const uint8_t *cv_ubuf = NULL, *cv_next = NULL;   /* the caller's buffer of the running SD call, the end of the conversion blocks so far */
+static long  cv_nbytes = 0, cv_blocks = 0, cv_bad_block = -1, cv_bad_at = 0, cv_bad_want = 0, cv_bad_n = 0;
+static long  alloc_limit = 0, alloc_refused = 0;
+static int   cur_esz = 0;           /* element size of the data set of the running kind-E case (0 outside) */
+static int   fill_not_whole = 0;    /* the running case has written a fill piece that is not a whole number of elements */
+static const void *hk_piece_check(const void *data, int32 length);
+static int32 hk_Hwrite(int32 aid, int32 length, const void *data)
+{
+    if (hw_on) {
+        int32 posn = -1;
+        Hinquire(aid, NULL, NULL, NULL, NULL, NULL, &posn, NULL, NULL);
+        if (hw_n < HW_MAX) { hw_log[hw_n].pos = posn; hw_log[hw_n].len = length; hw_n++; } else hw_lost++;
+    }
+    const void *safe = cur_esz ? hk_piece_check(data, length) : NULL;
+    int32 r = (Hwrite)(aid, length, safe ? safe : data);
+    if (safe) free((void *)safe);
+    return r;
+}
+static int hk_DFKconvert(void *source, void *dest, int32 ntype, uint32 num_elm, int16 acc_mode, uint32 source_stride, uint32 dest_stride)
+{
+    if (cur_esz && cv_ubuf) {
+        const uint8_t *sp = source, *dp = dest, *p = (sp >= cv_ubuf && sp < cv_ubuf + cv_nbytes) ? sp : (dp >= cv_ubuf && dp < cv_ubuf + cv_nbytes) ? dp : NULL;
+        if (p) {
+            if (p != cv_next && cv_bad_block < 0) { cv_bad_block = cv_blocks; cv_bad_at = (long)(p - cv_ubuf); cv_bad_want = (long)(cv_next - cv_ubuf); cv_bad_n = (long)num_elm; }
+            cv_next = p + (long)num_elm * cur_esz;
+            cv_blocks++;
+        }
+    }
+    return (DFKconvert)(source, dest, ntype, num_elm, acc_mode, source_stride, dest_stride);
+}
+static void *hk_calloc(size_t n, size_t sz)
+{
+    if (alloc_limit > 0 && n * sz > (size_t)alloc_limit) { alloc_refused++; return NULL; }
+    return (calloc)(n, sz);
+}
+#define Hwrite(a, l, d) hk_Hwrite(a, l, d)
+#define DFKconvert(s, d, t, n, a, ss, ds) hk_DFKconvert(s, d, t, n, a, ss, ds)
+#define calloc(n, s) hk_calloc(n, s)
 #include PUTGET_C
+#undef Hwrite
+#undef DFKconvert
+#undef calloc
+
+/* Oracle "a fill piece is a whole number of elements and lies inside its buffer": hdf_xdr_NCvdata sends the fill values from tBuf (types
+ * stored as in memory) or tValues (converted).  A piece that is not a multiple of the element size makes every later piece start in the
+ * middle of an element; one that is longer than the buffer reads behind the heap block.  Key sd-fill-piece-not-whole-elements.  For a piece
+ * longer than its buffer the call is completed from a zero-padded copy, so that the case runs on (the sanitizer would stop the process). */
+static const void *hk_piece_check(const void *data, int32 length)
+{
+    long have = data == (const void *)tBuf ? tBuf_size : data == (const void *)tValues ? tValues_size : -1;
+    if (have < 0 || length <= 0) return NULL;
+    if (length % cur_esz != 0 && !fill_not_whole) {
+        fill_not_whole = 1;
+        hk_fail("sd-fill-piece-not-whole-elements", "Hwrite of %d bytes from the %s buffer (%ld bytes) of a data set with %d-byte elements (allocations above %ld bytes refused)",
+                (int)length, data == (const void *)tBuf ? "fill" : "converted fill", have, cur_esz, alloc_limit);
+    }
+    if (length > have) {
+        uint8_t *copy = (calloc)(1, (size_t)length);
+        memcpy(copy, data, (size_t)have);
+        return copy;
+    }
+    return NULL;
+}
+
+/* Oracle "the conversion blocks tile the caller's buffer": of the DFKconvert calls of one SDwritedata / SDreaddata those that touch the
+ * caller's buffer (conv_watch) must do so front to back without gap or overlap and reach its end.  Key sd-convert-blocks-tile.  conv_tiles returns
+ * 0 when violated. */
+static void conv_watch(const uint8_t *ubuf, long nbytes) { cv_ubuf = cv_next = ubuf; cv_nbytes = nbytes; cv_blocks = 0; cv_bad_block = -1; }
+static int conv_tiles(const char *what)
+{
+    const uint8_t *ubuf = cv_ubuf;
+    cv_ubuf = NULL;
+    if (cv_bad_block >= 0) {
+        hk_fail("sd-convert-blocks-tile", "%s: conversion block %ld (%ld elements) is taken at byte %ld of the caller's buffer, the blocks before it end at byte %ld (allocations above %ld bytes refused)",
+                what, cv_bad_block, cv_bad_n, cv_bad_at, cv_bad_want, alloc_limit);
+        return 0;
+    }
+    if (cv_blocks && cv_next != ubuf + cv_nbytes) { hk_fail("sd-convert-blocks-tile", "%s: the conversion blocks end at byte %ld of %ld", what, (long)(cv_next - ubuf), cv_nbytes); return 0; }
+    return 1;
+}
 
 #define MAXRANK 5
 #define MAXCELLS 20000
@@ -638,12 +730,570 @@ static void case_coordck_unit(void)
     }
 }
 
+/* ---------------------------------------------------------------- kind E: the internal piece / buffer / block sizes of the data path
+ * (engine entry `sd_big`, argv[4] == "big").  The arrays of the kinds A and B are a few KB, so every loop of the data path that works in
+ * pieces runs at most once there.  Here the geometry is built AROUND the sizes the library uses internally (all taken from the compiled
+ * text of putget.c / nc_priv.h, never copied):
+ *   MAX_SIZE        the piece in which hdf_xdr_NCvdata writes the fill values before and behind the first hyperslab of a new data element
+ *   MAX_BLOCK_SIZE, BLOCK_MULT, BLOCK_COUNT   the linked blocks hdf_get_data gives a record variable (block = min(record * BLOCK_MULT,
+ *                   MAX_BLOCK_SIZE), BLOCK_COUNT blocks per table); a user block size (SDsetblocksize) as well
+ *   tBuf / tValues  the conversion buffers (whole request; halved after a refused allocation: `alloc_limit`, see hk_calloc above)
+ * F (fixed size): the FIRST write of a large data set is a hyperslab in the middle whose first contiguous run begins `lead` bytes into the
+ *    variable and ends `trail` bytes before its end, with lead / trail / run length = m * size - 1 element, m * size, m * size + 1 element or
+ *    strictly inside a piece (m = 1..3); rank 1..3, unit and non-unit strides, every number type and flavour, fill mode on / off, user /
+ *    default fill value, plain / RLE / deflate storage.  The Hwrite calls of that SDwritedata are reported:
+ *        T sd fw <element size> <shape> <start> <stride> <count> <fill values are written: 0/1> => <pos>:<len>,<pos>:<len>,...
+ *    and h4model recomputes them (`H4.SdPieces.firstWriteLog`: pieces of MAX_SIZE tile the lead and the trail, theorem `pieces_tile`).
+ * R (record variable): record sizes around MAX_BLOCK_SIZE / BLOCK_MULT, MAX_BLOCK_SIZE, MAX_SIZE, a user block size and BLOCK_COUNT blocks;
+ *    the first write goes to record 0..3 (skipped records are filled by NCcoordck one record per Hwrite), one-dimensional record variables
+ *    start at record BLOCK_MULT / BLOCK_MULT * BLOCK_COUNT -1 / +0 / +1.
+ * Oracle for both: the shadow n-d array (whole-array read in the session and after reopen, windows and strided reads around every
+ * boundary, a second write across a boundary), the extent, the length of the stored element.
+ * Failure keys: sd-read-data, sd-fill, sd-valid-rejected, sd-extent, sd-element-length, sd-read-overrun (+ the known NOFILL root-cause suffixes). */
+static int big_mode = 0;
+
+/* a byte count one element below / at / one element above m * P (m = 1..mmax), or strictly inside a piece; a multiple of the element size */
+static long near_multiple(long P, int e, int mmax)
+{
+    long v;
+    switch ((int)hk_range(0, 4)) {
+        case 0: v = hk_range(1, mmax) * P - e; break;
+        case 1: v = hk_range(1, mmax) * P; break;
+        case 2: v = hk_range(1, mmax) * P + e; break;
+        default: v = hk_range(0, mmax - 1) * P + hk_range(1, P - 1); break;
+    }
+    v -= v % e;
+    return v < 0 ? 0 : v;
+}
+
+static void unflatten(const Shadow *s, long ix, int32 *c)
+{
+    for (int i = s->rank - 1; i >= 0; i--) { c[i] = (int32)(ix % s->dims[i]); ix /= s->dims[i]; }
+}
+
+/* whole-array read against the shadow (row-major identity: the first dimension is the slowest, so the current extent of an unlimited
+   dimension does not change the index of a cell) */
+static void big_verify(Shadow *s, int32 sds, const char *when)
+{
+    int32 start[MAXRANK], count[MAXRANK];
+    long n = 1;
+    for (int i = 0; i < s->rank; i++) { start[i] = 0; count[i] = (i == 0 && s->unlimited) ? s->extent0 : s->dims[i]; n *= count[i]; }
+    if (n == 0) return;
+    uint8_t *buf = malloc((size_t)n * s->esz + 8);
+    memset(buf, 0x5A, (size_t)n * s->esz + 8);
+    s->tail = (s->maxwritten < s->ncells - 1) && strcmp(when, "after-reopen") != 0;
+    conv_watch(buf, n * s->esz);
+    intn r = SDreaddata(sds, start, NULL, count, buf);
+    if (r == FAIL) { hk_fail(KEY(s, "sd-valid-rejected"), "%s whole read failed (%ld cells)", when, n); s->tail = 0; cv_ubuf = NULL; free(buf); return; }
+    s->tail = 0;
+    if (!conv_tiles(when)) { free(buf); return; }   /* the buffer was filled in the wrong places: reported, nothing to compare */
+    long bad_data = 0, bad_fill = 0, first_data = -1, first_fill = -1;
+    for (long k = 0; k < n; k++) {
+        const uint8_t *got = buf + k * s->esz;
+        if (s->written[k] == 2) continue;
+        if (s->written[k]) { if (memcmp(got, s->data + k * s->esz, (size_t)s->esz)) { if (!bad_data++) first_data = k; } }
+        else if (s->fillmode && !fill_not_whole && memcmp(got, s->fill, (size_t)s->esz)) { if (!bad_fill++) first_fill = k; }
+    }
+    if (bad_data) hk_fail(KEY(s, "sd-read-data"), "%s: %ld written cell(s) read back differently, first at cell %ld = byte %ld (rank %d nt %d)", when, bad_data, first_data, first_data * s->esz, s->rank, (int)s->nt);
+    if (bad_fill) hk_fail("sd-fill", "%s: %ld unwritten cell(s) are not the fill value, first at cell %ld = byte %ld (rank %d nt %d userfill %d unlimited %d)", when, bad_fill, first_fill, first_fill * s->esz, s->rank, (int)s->nt, s->userfill, s->unlimited);
+    if (buf[n * s->esz] != 0x5A) hk_fail("sd-read-overrun", "%s", when);
+    free(buf);
+    hk_stat("big_whole_reads", 1);
+}
+
+#define BIG_SLAB 40000
+/* one hyperslab read against the shadow; the request is valid by construction */
+static void big_read(Shadow *s, int32 sds, const int32 *start, const int32 *stride, const int32 *count, const char *what)
+{
+    long n = 1;
+    for (int i = 0; i < s->rank; i++) n *= count[i];
+    if (n > BIG_SLAB) return;
+    long *ix = malloc(sizeof(long) * (size_t)n);
+    uint8_t *buf = malloc((size_t)n * s->esz + 8);
+    memset(buf, 0x5A, (size_t)n * s->esz + 8);
+    slab_iter(s, start, stride, count, ix, n);
+    s->tail = 0;
+    for (long q = 0; q < n; q++) if (ix[q] > s->maxwritten) s->tail = 1;
+    int all1 = 1; for (int i = 0; i < s->rank; i++) if (stride[i] != 1) all1 = 0;
+    conv_watch(buf, n * s->esz);
+    if (SDreaddata(sds, start, all1 && hk_chance(50) ? NULL : stride, count, buf) == FAIL) { hk_fail(KEY(s, "sd-valid-rejected"), "%s read failed", what); cv_ubuf = NULL; }
+    else if (conv_tiles(what)) {
+        for (long q = 0; q < n; q++) {
+            const uint8_t *got = buf + q * s->esz;
+            if (s->written[ix[q]] == 2) continue;
+            if (s->written[ix[q]]) { if (memcmp(got, s->data + ix[q] * s->esz, (size_t)s->esz)) { hk_fail(KEY(s, "sd-read-data"), "%s: cell %ld = byte %ld differs (rank %d nt %d strided %d)", what, ix[q], ix[q] * s->esz, s->rank, (int)s->nt, !all1); break; } }
+            else if (s->fillmode && !fill_not_whole && memcmp(got, s->fill, (size_t)s->esz)) { hk_fail("sd-fill", "%s: unwritten cell %ld = byte %ld is not the fill value (rank %d nt %d userfill %d unlimited %d)", what, ix[q], ix[q] * s->esz, s->rank, (int)s->nt, s->userfill, s->unlimited); break; }
+        }
+        if (buf[n * s->esz] != 0x5A) hk_fail("sd-read-overrun", "%s", what);
+    }
+    s->tail = 0;
+    free(ix); free(buf);
+    hk_stat("big_slab_reads", 1);
+}
+
+/* one valid hyperslab write of random bytes, mirrored in the shadow */
+static int big_write(Shadow *s, int32 sds, const int32 *start, const int32 *stride, const int32 *count, const char *what)
+{
+    long n = 1;
+    for (int i = 0; i < s->rank; i++) n *= count[i];
+    long *ix = malloc(sizeof(long) * (size_t)n);
+    uint8_t *buf = malloc((size_t)n * s->esz + 8);
+    for (long b = 0; b < n * s->esz; b++) buf[b] = hk_byte();
+    slab_iter(s, start, stride, count, ix, n);
+    int all1 = 1; for (int i = 0; i < s->rank; i++) if (stride[i] != 1) all1 = 0;
+    conv_watch(buf, n * s->esz);
+    intn r = SDwritedata(sds, start, all1 && hk_chance(50) ? NULL : stride, count, buf);
+    if (r == FAIL) { hk_fail(KEY(s, "sd-valid-rejected"), "%s write rejected (rank %d nt %d)", what, s->rank, (int)s->nt); for (long q = 0; q < n; q++) s->written[ix[q]] = 2; cv_ubuf = NULL; }
+    else if (!conv_tiles(what)) {   /* values were taken from the wrong places of the buffer: reported, the cells of the request hold unknown values */
+        s->nwrites++;
+        for (long q = 0; q < n; q++) { s->written[ix[q]] = 2; if (ix[q] > s->maxwritten) s->maxwritten = ix[q]; }
+        if (s->unlimited) { int32 e = start[0] + (count[0] - 1) * stride[0] + 1; if (e > s->extent0) s->extent0 = e; }
+    }
+    else {
+        s->nwrites++;
+        for (long q = 0; q < n; q++) { memcpy(s->data + ix[q] * s->esz, buf + q * s->esz, (size_t)s->esz); s->written[ix[q]] = 1; if (ix[q] > s->maxwritten) s->maxwritten = ix[q]; }
+        if (s->unlimited) { int32 e = start[0] + (count[0] - 1) * stride[0] + 1; if (e > s->extent0) s->extent0 = e; }
+    }
+    free(ix); free(buf);
+    return r != FAIL;
+}
+
+/* a small window (unit stride or strided in the last dimension) around the cell that holds byte `byte` of the variable */
+static void big_window(const Shadow *s, long byte, int32 *start, int32 *stride, int32 *count)
+{
+    long lim = s->unlimited ? (long)s->extent0 * (s->ncells / s->dims[0]) : s->ncells;
+    long cell = byte / s->esz;
+    if (cell >= lim) cell = lim - 1;
+    if (cell < 0) cell = 0;
+    unflatten(s, cell, start);
+    int last = s->rank - 1;
+    long R = (last == 0 && s->unlimited) ? s->extent0 : s->dims[last];
+    for (int i = 0; i < s->rank; i++) { stride[i] = 1; count[i] = 1; }
+    long lo = start[last] - hk_range(0, 40); if (lo < 0) lo = 0;
+    stride[last] = hk_chance(30) ? (int32)hk_range(2, 3) : 1;
+    long maxc = (R - 1 - lo) / stride[last] + 1;
+    start[last] = (int32)lo;
+    count[last] = (int32)hk_range(1, maxc < 90 ? maxc : 90);
+    if (last > 0) { /* a few rows */
+        long rows = ((last - 1 == 0 && s->unlimited) ? s->extent0 : s->dims[last - 1]) - start[last - 1];
+        stride[last - 1] = 1; count[last - 1] = (int32)hk_range(1, rows < 3 ? rows : 3);
+    }
+}
+
+static void big_element_length(const char *path, uint16 tag, uint16 ref, long expect, const Shadow *s)
+{
+    int32 fid = Hopen(path, DFACC_READ, 0);
+    if (fid == FAIL) { hk_fail("sd-noraw", "Hopen"); return; }
+    int32 len = Hlength(fid, tag, ref);
+    Hclose(fid);
+    if (len != expect) hk_fail(KEY(s, "sd-element-length"), "the data element of the variable is %ld bytes long, the variable has %ld (rank %d nt %d unlimited %d fill %d)", (long)len, expect, s->rank, (int)s->nt, s->unlimited, s->fillmode);
+}
+
+static void case_big(int k)
+{
+    char pname[64]; snprintf(pname, sizeof pname, "b%d.hdf", k);
+    const char *path = hk_tmp(pname);
+    const long P = (long)MAX_SIZE;
+    Shadow s; memset(&s, 0, sizeof s);
+    s.nt = TYPES[k % (int)(sizeof TYPES / sizeof TYPES[0])];          /* every number-type size in every run */
+    if (hk_chance(25)) s.nt |= DFNT_LITEND; else if (hk_chance(15)) s.nt |= DFNT_NATIVE;
+    s.esz = esize(s.nt);
+    s.unlimited = ((k + k / 10) % 4 == 3);                             /* (every type meets both kinds within 40 cases) */
+    s.fillmode = hk_chance(s.unlimited ? 80 : 75);
+    s.userfill = hk_chance(50);
+    s.rank = (int)hk_range(1, 3);
+    s.maxwritten = -1;
+    int e = s.esz;
+    int comp = (!s.unlimited && hk_chance(30)) ? (hk_chance(60) ? COMP_CODE_RLE : COMP_CODE_DEFLATE) : COMP_CODE_NONE;
+    int32 start[MAXRANK], stride[MAXRANK], count[MAXRANK], cdims[MAXRANK];
+    long blocksize = 0;
+    for (int i = 0; i < MAXRANK; i++) { start[i] = 0; stride[i] = 1; count[i] = 1; }
+
+    if (!s.unlimited) {
+        /* F: first contiguous run = cells [W, W + c) of N */
+        long lead, trail, c = hk_range(1, 300), W, N;
+        int mode = (int)hk_range(0, 3);                   /* 0 lead exact, 1 trail exact, 2 both (rank 1), 3 a long run */
+        if (mode >= 2) s.rank = 1;
+        switch (mode) {
+            case 0: lead = near_multiple(P, e, 3); trail = e * hk_range(0, P / 2 / e); break;
+            case 1: trail = near_multiple(P, e, 3); lead = hk_chance(15) ? 0 : e * hk_range(0, P / 2 / e); break;
+            case 2: lead = near_multiple(P, e, 2); trail = near_multiple(P, e, 1); if (hk_chance(50)) { long t = lead; lead = trail; trail = t; } break;
+            default: lead = near_multiple(P, e, 1); trail = near_multiple(P, e, 1); c = near_multiple(P, e, 1) / e; if (c < 1) c = 1; break;
+        }
+        int last = s.rank - 1;
+        if (s.rank == 1) { N = lead / e + c + trail / e; s.dims[0] = (int32)N; W = lead / e; }
+        else {
+            long R = hk_range(c, c + 1500), rows, d1 = 1;
+            if (mode == 0) { W = lead / e; if (W % R + c > R) c = R - W % R; }
+            long target = lead / e + c + trail / e;
+            rows = (target + R - 1) / R;
+            if (rows < W / R + 4) rows = W / R + 4;   /* (mode 0: room for a few rows after the first one) */
+            if (s.rank == 3) { d1 = hk_range(2, 9); rows = (rows + d1 - 1) / d1 * d1; s.dims[0] = (int32)(rows / d1); s.dims[1] = (int32)d1; }
+            else s.dims[0] = (int32)rows;
+            s.dims[last] = (int32)R;
+            N = rows * R;
+            if (mode == 1) { long end = N - trail / e; if (end < 1) end = 1; long col = (end - 1) % R; if (c > col + 1) c = col + 1; W = end - c; }
+        }
+        s.ncells = N;
+        unflatten(&s, W, start);
+        count[last] = (int32)c;
+        if (hk_chance(25) && c > 2) { stride[last] = (int32)hk_range(2, 3); count[last] = (int32)((c - 1) / stride[last] + 1); if (count[last] > 150) count[last] = 150; }
+        for (int i = 0; i < last; i++) {    /* a few rows / planes: more runs after the first one */
+            long room = s.dims[i] - start[i];
+            stride[i] = hk_chance(25) ? (int32)hk_range(2, 3) : 1;
+            count[i] = (int32)hk_range(1, 3);
+            while (count[i] > 1 && (long)(count[i] - 1) * stride[i] >= room) count[i]--;
+        }
+        if (s.rank == 2 && hk_chance(15) && start[1] == 0 && stride[0] == 1) { stride[1] = 1; count[1] = s.dims[1]; } /* whole rows: one long run */
+        if (comp != COMP_CODE_NONE)     /* a coded stream is written front to back: ONE contiguous run (anything else is refused by the coders, C05) */
+            for (int i = 0; i < s.rank; i++) { stride[i] = 1; if (i < last) count[i] = 1; else count[i] = (int32)c; }
+        for (int i = 0; i < s.rank; i++) cdims[i] = s.dims[i];
+    }
+    else {
+        /* R: record variable; M elements per record */
+        long M, r0, nrec = hk_range(1, 2);
+        int cls = (int)hk_range(0, 5);
+        if (s.rank == 1) {
+            M = 1;
+            long b = hk_chance(50) ? BLOCK_MULT : (long)BLOCK_MULT * BLOCK_COUNT;   /* records per block / per block table */
+            r0 = b * hk_range(1, 2) + hk_range(-1, 1);
+            nrec = hk_range(1, 3 * BLOCK_MULT);
+        }
+        else {
+            switch (cls) {
+                case 0: M = (MAX_BLOCK_SIZE / BLOCK_MULT + e * hk_range(-1, 1)) / e; break;        /* block = record * BLOCK_MULT against MAX_BLOCK_SIZE */
+                case 1: M = (MAX_BLOCK_SIZE + e * hk_range(-1, 1)) / e; break;                     /* record against one block */
+                case 2: M = (P + e * hk_range(-1, 1)) / e; break;                                   /* record against the fill piece */
+                case 5: M = (P + e * hk_range(1, 64)) / e; break;                                   /* ... a record longer than a piece */
+                case 3: blocksize = hk_range(64, 4096); M = (blocksize + e * hk_range(-1, 1)) / e; break;   /* record against a user block */
+                default: blocksize = hk_range(16, 512); M = (blocksize * BLOCK_COUNT / 3 + e * hk_range(-1, 1)) / e; break; /* 3 records against one block table */
+            }
+            if (M < 1) M = 1;
+            r0 = hk_range(0, 3);
+        }
+        long a = 1;
+        if (s.rank == 3) { for (long d = 9; d >= 2; d--) if (M % d == 0) { a = d; break; } if (a == 1) s.rank = 2; }
+        s.dims[0] = (int32)(r0 + nrec + 2);
+        if (s.rank == 2) s.dims[1] = (int32)M;
+        if (s.rank == 3) { s.dims[1] = (int32)a; s.dims[2] = (int32)(M / a); }
+        s.ncells = (long)s.dims[0] * M;
+        start[0] = (int32)r0; count[0] = (int32)nrec;
+        if (s.rank > 1 && s.fillmode && hk_chance(60)) {           /* part of a record (NOFILL: whole records from record 0, see KEY) */
+            int last = s.rank - 1;
+            start[last] = (int32)hk_range(0, s.dims[last] - 1);
+            count[last] = (int32)hk_range(1, s.dims[last] - start[last]);
+            if (count[last] > 2000) count[last] = 2000;
+            if (s.rank == 3) { start[1] = (int32)hk_range(0, s.dims[1] - 1); count[1] = (int32)hk_range(1, s.dims[1] - start[1]); }
+        }
+        else for (int i = 1; i < s.rank; i++) count[i] = s.dims[i];
+        if (!s.fillmode) start[0] = 0;
+        if (s.rank > 1 && hk_chance(20) && nrec > 1) { stride[0] = 2; s.dims[0] += (int32)nrec; s.ncells = (long)s.dims[0] * M; }
+        for (int i = 0; i < s.rank; i++) cdims[i] = s.dims[i];
+        cdims[0] = SD_UNLIMITED;
+    }
+    s.data = calloc((size_t)s.ncells, (size_t)s.esz); s.written = calloc((size_t)s.ncells, 1);
+    if (s.userfill) for (int i = 0; i < s.esz; i++) s.fill[i] = hk_byte(); else default_fill(s.nt, s.fill);
+
+    int32 sd = SDstart(path, DFACC_CREATE);
+    if (sd == FAIL) { hk_fail("sd-start", "create"); goto out; }
+    if (!s.fillmode) SDsetfillmode(sd, SD_NOFILL);
+    int32 sds = SDcreate(sd, "big", s.nt, s.rank, cdims);
+    if (sds == FAIL) { hk_fail("sd-create", "rank %d nt %d", s.rank, (int)s.nt); SDend(sd); goto out; }
+    if (s.userfill && SDsetfillvalue(sds, s.fill) == FAIL) hk_fail("sd-setfill", "nt %d", (int)s.nt);
+    if (blocksize) { if (SDsetblocksize(sds, (int32)blocksize) == FAIL) hk_fail("sd-setblocksize", "%ld", blocksize); s.smallblocks = 1; }
+    if (comp != COMP_CODE_NONE) {
+        comp_info ci; memset(&ci, 0, sizeof ci); ci.deflate.level = 1;
+        if (SDsetcompress(sds, (comp_coder_t)comp, &ci) == FAIL) { hk_fail("sd-setcompress", "coder %d", comp); comp = COMP_CODE_NONE; }
+    }
+    printf("INFO big rank=%d nt=%d unlimited=%d fill=%d userfill=%d comp=%d blocksize=%ld dims=", s.rank, (int)s.nt, s.unlimited, s.fillmode, s.userfill, comp, blocksize); print_list(s.dims, s.rank);
+    printf(" start="); print_list(start, s.rank); printf(" stride="); print_list(stride, s.rank); printf(" count="); print_list(count, s.rank); printf("\n");
+    hk_stat(s.unlimited ? "big_record" : "big_fixed", 1);
+
+    /* memory pressure: every request of the data path for a conversion buffer above `alloc_limit` bytes is refused */
+    SDPfreebuf();
+    alloc_limit = 0; alloc_refused = 0; cur_esz = e; fill_not_whole = 0;
+    long pressure = 0;
+    if (hk_chance(20)) pressure = hk_chance(30) ? hk_range(e, 64 * e) : hk_range(300, 60000 * e);   /* bytes: room for one element at least (below that FAIL is the right answer); need not be a multiple of the element size */
+    alloc_limit = pressure;
+    printf("INFO alloc_limit=%ld\n", alloc_limit);
+    if (pressure) hk_stat("big_pressure_cases", 1);
+    /* the first write, with the Hwrite calls of the data path logged */
+    hw_on = 1; hw_n = 0; hw_lost = 0;
+    int ok = big_write(&s, sds, start, stride, count, "first");
+    hw_on = 0;
+    if (!s.unlimited && ok && !hw_lost && !alloc_refused) {     /* (the model has no refused allocations) */
+        printf("T sd fw %d ", e); print_list(s.dims, s.rank); printf(" "); print_list(start, s.rank); printf(" "); print_list(stride, s.rank); printf(" "); print_list(count, s.rank);
+        printf(" %d => ", (s.fillmode || comp != COMP_CODE_NONE) ? 1 : 0);
+        if (hw_n == 0) printf("-");
+        for (int i = 0; i < hw_n; i++) printf(i ? ",%ld:%ld" : "%ld:%ld", hw_log[i].pos, hw_log[i].len);
+        printf("\n");
+        hk_stat("big_fw_lines", 1);
+        if (hw_n > 2) hk_stat("big_fw_multi_piece", 1);
+    }
+    uint16 dtag = 0, dref = 0;
+    { NC *handle = NC_check_id((int)((sd >> 20) & 0xfff)); NC_var *vp = handle ? NC_hlookupvar(handle, (int)(sds & 0xffff)) : NULL; if (vp) { dtag = vp->data_tag; dref = vp->data_ref; } }
+    long reclen = s.unlimited ? s.ncells / s.dims[0] * e : 0;
+
+    /* the positions at which something internal changes: multiples of the piece / block sizes, both ends of the first run */
+    long marks[24]; int nm = 0;
+    {
+        long total = (s.unlimited ? (long)s.extent0 * (s.ncells / s.dims[0]) : s.ncells) * e, first = cell_index(&s, start) * (long)e;
+        marks[nm++] = first; marks[nm++] = first + (long)count[s.rank - 1] * e; marks[nm++] = 0; marks[nm++] = total - e;
+        for (long m = 1; m * P < total && nm < 12; m++) marks[nm++] = m * P;
+        long blk = s.unlimited ? (blocksize ? blocksize : (reclen > MAX_BLOCK_SIZE ? MAX_BLOCK_SIZE : (reclen * BLOCK_MULT > MAX_BLOCK_SIZE ? MAX_BLOCK_SIZE : reclen * BLOCK_MULT))) : 0;
+        if (blk > 0) { for (long m = 1; m * blk < total && nm < 18; m++) marks[nm++] = m * blk; if (blk * BLOCK_COUNT < total) marks[nm++] = blk * BLOCK_COUNT; }
+        if (reclen > 0) for (long m = 1; m * reclen < total && nm < 24; m++) marks[nm++] = m * reclen;
+    }
+    int32 ws[MAXRANK], wst[MAXRANK], wc[MAXRANK];
+    for (int i = 0; i < nm; i++) { big_window(&s, marks[i] - (hk_chance(50) ? e : 0), ws, wst, wc); big_read(&s, sds, ws, wst, wc, "window"); }
+    int sized = s.fillmode || comp != COMP_CODE_NONE || s.unlimited || s.maxwritten == s.ncells - 1;   /* else the known :nofill-unwritten-tail applies to a whole read */
+    if (pressure && pressure < 300) alloc_limit = 0;       /* (whole reads in blocks of a few bytes: the windows cover that) */
+    if (sized) big_verify(&s, sds, "after-first-write");
+    alloc_limit = pressure;
+    /* later writes across the boundaries (a compressed element is written once: rewriting inside a coded stream is C05's subject) */
+    if (comp == COMP_CODE_NONE && ok) {
+        int nw = (int)hk_range(1, 3);
+        for (int w = 0; w < nw; w++) {
+            big_window(&s, marks[hk_range(0, nm - 1)], ws, wst, wc);
+            if (s.unlimited && !s.fillmode) continue;
+            big_write(&s, sds, ws, wst, wc, "later");
+            big_window(&s, marks[hk_range(0, nm - 1)], ws, wst, wc); big_read(&s, sds, ws, wst, wc, "window-2");
+        }
+        if (pressure && pressure < 300) alloc_limit = 0;
+        if (sized) big_verify(&s, sds, "end-of-session");
+        alloc_limit = pressure;
+    }
+    {
+        int32 r_, d_[MAXRANK], nt_, na_; char nmb[64];
+        if (SDgetinfo(sds, nmb, &r_, d_, &nt_, &na_) == FAIL) hk_fail("sd-getinfo", "in session");
+        else if (s.unlimited && d_[0] != s.extent0) hk_fail(KEY(&s, "sd-extent"), "in-session extent %d expected %d", (int)d_[0], (int)s.extent0);
+    }
+    SDendaccess(sds);
+    if (SDend(sd) == FAIL) hk_fail(KEY(&s, "sd-end"), "SDend");
+    if (ok && dref != 0) big_element_length(path, dtag, dref, s.unlimited ? (long)s.extent0 * reclen : s.ncells * (long)e, &s);
+    sd = SDstart(path, hk_chance(50) ? DFACC_READ : DFACC_RDWR);
+    if (sd == FAIL) { hk_fail("sd-restart", "SDstart"); goto out; }
+    sds = SDselect(sd, 0);
+    {
+        int32 r_, d_[MAXRANK], nt_, na_; char nmb[64];
+        if (SDgetinfo(sds, nmb, &r_, d_, &nt_, &na_) == FAIL) hk_fail("sd-getinfo", "after reopen");
+        else if (s.unlimited && d_[0] != s.extent0) hk_fail(KEY(&s, "sd-extent"), "after reopen extent %d expected %d", (int)d_[0], (int)s.extent0);
+    }
+    s.maxwritten = s.ncells;
+    if (pressure && pressure < 300) alloc_limit = 0;
+    big_verify(&s, sds, "after-reopen");
+    alloc_limit = pressure;
+    for (int i = 0; i < nm && i < 6; i++) { big_window(&s, marks[i], ws, wst, wc); big_read(&s, sds, ws, wst, wc, "window-reopened"); }
+    SDendaccess(sds); SDend(sd);
+out:
+    if (alloc_refused) hk_stat("big_alloc_refused", alloc_refused);
+    alloc_limit = 0; cur_esz = 0; SDPfreebuf();
+    unlink(path);
+    free(s.data); free(s.written);
+}
+
+/* ---------------------------------------------------------------- kind E/N: netCDF-classic files behind the SD interface
+ * Such a file is read and written through a buffered XDR stream whose page is BIOBUFSIZ bytes (hdf_xdr.c; the constant is private to that
+ * file: generated as H4.Gen.XdrBuf.BIOBUFSIZ and read here from the same text by `page_size`).  The library only opens such files, it never
+ * creates them, so the case writes one itself (CDF-1: header, one fixed-size variable, one record variable, big-endian values, byte and
+ * short rows padded to 4 bytes) with the variables placed so that their first / last bytes and the ends of the rows lie one element below,
+ * at, one element above a page boundary; then hyperslab reads (windows around every page boundary, strided, whole), for DFACC_RDWR also
+ * writes across the boundaries, SDend, the raw file bytes and a re-read.  Oracle: the shadow array and the file image.
+ * Failure keys: nc-open, nc-info, sd-read-data, sd-valid-rejected, nc-file-bytes (a byte of the file outside / inside the written cells). */
+static long page_size(void)
+{
+    static long v = -1;
+    if (v >= 0) return v;
+    v = 0;
+    char path[600]; snprintf(path, sizeof path, "%s/mfhdf/src/hdf_xdr.c", REPO);
+    FILE *f = fopen(path, "r");
+    if (f) { char line[400]; while (fgets(line, sizeof line, f)) { long x; if (sscanf(line, "#define BIOBUFSIZ %ld", &x) == 1) { v = x; break; } } fclose(f); }
+    return v;
+}
+
+static void be32(uint8_t *p, uint32_t v) { p[0] = (uint8_t)(v >> 24); p[1] = (uint8_t)(v >> 16); p[2] = (uint8_t)(v >> 8); p[3] = (uint8_t)v; }
+static long nc_put_name(uint8_t *h, long o, const char *nm) { long n = (long)strlen(nm); be32(h + o, (uint32_t)n); o += 4; memcpy(h + o, nm, (size_t)n); o += (n + 3) / 4 * 4; return o; }
+
+typedef struct { int nct, xsz; int32 nt; int rank; int32 dims[3]; long begin, vsize, ncell; uint8_t *val; } NcVar;   /* val: native-order elements */
+
+/* value k of a variable as it stands in the file (big-endian) */
+static void nc_file_elem(const NcVar *v, long k, uint8_t *out) { for (int b = 0; b < v->xsz; b++) out[b] = v->val[k * v->xsz + (v->xsz - 1 - b)]; }
+
+static void nc_check_slab(const NcVar *v, int32 sds, int recs, const int32 *start, const int32 *stride, const int32 *count, const char *what)
+{
+    Shadow s; memset(&s, 0, sizeof s);
+    s.rank = v->rank; s.esz = v->xsz; for (int i = 0; i < v->rank; i++) s.dims[i] = v->dims[i];
+    if (recs >= 0) s.dims[0] = recs;
+    long n = 1; for (int i = 0; i < v->rank; i++) n *= count[i];
+    long *ix = malloc(sizeof(long) * (size_t)n);
+    uint8_t *buf = malloc((size_t)n * v->xsz + 8);
+    memset(buf, 0x5A, (size_t)n * v->xsz + 8);
+    slab_iter(&s, start, stride, count, ix, n);
+    int all1 = 1; for (int i = 0; i < v->rank; i++) if (stride[i] != 1) all1 = 0;
+    if (SDreaddata(sds, (int32 *)start, all1 && hk_chance(50) ? NULL : (int32 *)stride, (int32 *)count, buf) == FAIL) hk_fail("sd-valid-rejected", "netCDF %s read failed (nc type %d rank %d)", what, v->nct, v->rank);
+    else {
+        for (long q = 0; q < n; q++)
+            if (memcmp(buf + q * v->xsz, v->val + ix[q] * v->xsz, (size_t)v->xsz)) { hk_fail("sd-read-data", "netCDF %s: cell %ld = file byte %ld differs (nc type %d rank %d strided %d)", what, ix[q], v->begin + ix[q] * v->xsz, v->nct, v->rank, !all1); break; }
+        if (buf[n * v->xsz] != 0x5A) hk_fail("sd-read-overrun", "netCDF %s", what);
+    }
+    free(ix); free(buf);
+    hk_stat("nc_slab_reads", 1);
+}
+
+static void nc_write_slab(NcVar *v, int32 sds, int recs, const int32 *start, const int32 *stride, const int32 *count, uint8_t *touched)
+{
+    Shadow s; memset(&s, 0, sizeof s);
+    s.rank = v->rank; s.esz = v->xsz; for (int i = 0; i < v->rank; i++) s.dims[i] = v->dims[i];
+    if (recs >= 0) s.dims[0] = recs;
+    long n = 1; for (int i = 0; i < v->rank; i++) n *= count[i];
+    long *ix = malloc(sizeof(long) * (size_t)n);
+    uint8_t *buf = malloc((size_t)n * v->xsz + 8);
+    for (long b = 0; b < n * v->xsz; b++) buf[b] = hk_byte();
+    slab_iter(&s, start, stride, count, ix, n);
+    int all1 = 1; for (int i = 0; i < v->rank; i++) if (stride[i] != 1) all1 = 0;
+    if (SDwritedata(sds, (int32 *)start, all1 && hk_chance(50) ? NULL : (int32 *)stride, (int32 *)count, buf) == FAIL) { hk_fail("sd-valid-rejected", "netCDF write rejected (nc type %d rank %d)", v->nct, v->rank); for (long q = 0; q < n; q++) touched[ix[q]] = 2; }
+    else for (long q = 0; q < n; q++) { memcpy(v->val + ix[q] * v->xsz, buf + q * v->xsz, (size_t)v->xsz); touched[ix[q]] = 1; }
+    free(ix); free(buf);
+    hk_stat("nc_slab_writes", 1);
+}
+
+/* a window around the cell of variable v that holds file byte `fbyte` */
+static void nc_window(const NcVar *v, int recs, long recsize, long fbyte, int32 *start, int32 *stride, int32 *count)
+{
+    long percell = v->ncell, cell;
+    if (recs >= 0) { long r = (fbyte - v->begin) / recsize; if (r < 0) r = 0; if (r >= recs) r = recs - 1; long in = (fbyte - v->begin - r * recsize) / v->xsz; if (in < 0) in = 0; if (in >= percell) in = percell - 1; cell = r * percell + in; }
+    else { cell = (fbyte - v->begin) / v->xsz; if (cell < 0) cell = 0; if (cell >= percell) cell = percell - 1; }
+    int32 d[3]; for (int i = 0; i < v->rank; i++) d[i] = v->dims[i]; if (recs >= 0) d[0] = recs;
+    for (int i = v->rank - 1; i >= 0; i--) { start[i] = (int32)(cell % d[i]); cell /= d[i]; stride[i] = 1; count[i] = 1; }
+    int last = v->rank - 1;
+    long lo = start[last] - hk_range(0, 9); if (lo < 0) lo = 0;
+    stride[last] = hk_chance(30) ? (int32)hk_range(2, 3) : 1;
+    long maxc = (d[last] - 1 - lo) / stride[last] + 1;
+    start[last] = (int32)lo; count[last] = (int32)hk_range(1, maxc < 24 ? maxc : 24);
+    if (last > 0) { long rows = d[last - 1] - start[last - 1]; count[last - 1] = (int32)hk_range(1, rows < 3 ? rows : 3); }
+}
+
+static void case_netcdf(int k)
+{
+    static const int XSZ[7] = {0, 1, 1, 2, 4, 4, 8};
+    static const int32 NTOF[7] = {0, DFNT_INT8, DFNT_CHAR8, DFNT_INT16, DFNT_INT32, DFNT_FLOAT32, DFNT_FLOAT64};
+    const long B = page_size();
+    if (B <= 0) { hk_fail("nc-page-size", "BIOBUFSIZ not found in hdf_xdr.c"); return; }
+    char pname[64]; snprintf(pname, sizeof pname, "n%d.nc", k);
+    const char *path = hk_tmp(pname);
+    NcVar fx, rc; memset(&fx, 0, sizeof fx); memset(&rc, 0, sizeof rc);
+    fx.nct = 1 + (k / 8) % 6; fx.xsz = XSZ[fx.nct]; fx.nt = NTOF[fx.nct];
+    rc.nct = (int)hk_range(1, 6); rc.xsz = XSZ[rc.nct]; rc.nt = NTOF[rc.nct];
+    int e = fx.xsz;
+    /* fixed-size variable: begins `a` bytes before a page boundary, ends one element below / at / above another one */
+    long a = hk_chance(30) ? 0 : 4 * hk_range(0, 3) + (hk_chance(40) ? 4 * hk_range(1, B / 8) : 0);
+    long fbytes = hk_range(1, 3) * B + a + e * hk_range(-1, 1) + (hk_chance(30) ? e * hk_range(2, 400) : 0);
+    fx.rank = (int)hk_range(1, 2);
+    if (fx.rank == 1) { fx.dims[0] = (int32)(fbytes / e); }
+    else { long R = hk_chance(40) ? (B + e * hk_range(-1, 1)) / e : hk_range(3, 700); fx.dims[1] = (int32)R; fx.dims[0] = (int32)((fbytes / e + R - 1) / R); }
+    fx.ncell = fx.rank == 1 ? fx.dims[0] : (long)fx.dims[0] * fx.dims[1];
+    fx.vsize = (fx.ncell * e + 3) / 4 * 4;
+    /* record variable: M elements per record, record size a multiple of 4 around one page (or small), 2..5 records */
+    long M = hk_chance(60) ? (B + 4 * hk_range(-1, 1)) / rc.xsz : hk_range(1, 300) * (4 / (rc.xsz > 4 ? 4 : rc.xsz));
+    if (M * rc.xsz % 4) M += (4 - M * rc.xsz % 4) / rc.xsz;
+    int recs = (int)hk_range(2, 5);
+    rc.rank = 2; rc.dims[0] = recs; rc.dims[1] = (int32)M; rc.ncell = M; rc.vsize = M * rc.xsz;
+    /* header */
+    uint8_t *h = calloc(1, 4096); long o = 0;
+    memcpy(h, "CDF\001", 4); o = 4; be32(h + o, (uint32_t)recs); o += 4;
+    be32(h + o, 10); o += 4; be32(h + o, (uint32_t)(fx.rank + 2)); o += 4;                 /* NC_DIMENSION */
+    o = nc_put_name(h, o, "t"); be32(h + o, 0); o += 4;                                     /* dim 0: the record dimension */
+    o = nc_put_name(h, o, "m"); be32(h + o, (uint32_t)M); o += 4;
+    o = nc_put_name(h, o, "y"); be32(h + o, (uint32_t)fx.dims[0]); o += 4;
+    if (fx.rank == 2) { o = nc_put_name(h, o, "x"); be32(h + o, (uint32_t)fx.dims[1]); o += 4; }
+    be32(h + o, 0); o += 4; be32(h + o, 0); o += 4;                                         /* no global attributes */
+    be32(h + o, 11); o += 4; be32(h + o, 2); o += 4;                                        /* NC_VARIABLE */
+    o = nc_put_name(h, o, "fx"); be32(h + o, (uint32_t)fx.rank); o += 4; be32(h + o, 2); o += 4; if (fx.rank == 2) { be32(h + o, 3); o += 4; }
+    be32(h + o, 0); o += 4; be32(h + o, 0); o += 4; be32(h + o, (uint32_t)fx.nct); o += 4; be32(h + o, (uint32_t)fx.vsize); o += 4;
+    long fx_begin_at = o; o += 4;
+    o = nc_put_name(h, o, "rc"); be32(h + o, 2); o += 4; be32(h + o, 0); o += 4; be32(h + o, 1); o += 4;
+    be32(h + o, 0); o += 4; be32(h + o, 0); o += 4; be32(h + o, (uint32_t)rc.nct); o += 4; be32(h + o, (uint32_t)rc.vsize); o += 4;
+    long rc_begin_at = o; o += 4;
+    long hlen = o;
+    fx.begin = B - a; if (fx.begin < hlen) fx.begin += B;
+    rc.begin = fx.begin + fx.vsize + 4 * hk_range(0, 5);
+    if (hk_chance(40)) rc.begin = (rc.begin + B - 1) / B * B - 4 * hk_range(0, 2);
+    if (rc.begin < fx.begin + fx.vsize) rc.begin = fx.begin + fx.vsize;
+    be32(h + fx_begin_at, (uint32_t)fx.begin); be32(h + rc_begin_at, (uint32_t)rc.begin);
+    long flen = rc.begin + (long)recs * rc.vsize;
+    uint8_t *img = calloc(1, (size_t)flen);
+    memcpy(img, h, (size_t)hlen); free(h);
+    fx.val = malloc((size_t)fx.ncell * fx.xsz); rc.val = malloc((size_t)recs * M * rc.xsz);
+    for (long b = 0; b < fx.ncell * fx.xsz; b++) fx.val[b] = hk_byte();
+    for (long b = 0; b < recs * M * rc.xsz; b++) rc.val[b] = hk_byte();
+    for (long q = 0; q < fx.ncell; q++) nc_file_elem(&fx, q, img + fx.begin + q * fx.xsz);
+    for (long q = 0; q < recs * M; q++) nc_file_elem(&rc, q, img + rc.begin + q * rc.xsz);
+    { FILE *f = fopen(path, "wb"); if (!f || fwrite(img, 1, (size_t)flen, f) != (size_t)flen) { hk_fail("nc-open", "cannot write %s", path); if (f) fclose(f); goto out; } fclose(f); }
+    printf("INFO netcdf page=%ld fx: type=%d rank=%d dims=%d,%d begin=%ld bytes=%ld  rc: type=%d recs=%d M=%ld begin=%ld recsize=%ld\n", B, fx.nct, fx.rank, (int)fx.dims[0], (int)fx.dims[1], fx.begin, fx.ncell * e, rc.nct, recs, M, rc.begin, rc.vsize);
+    hk_stat("big_netcdf", 1);
+
+    int rw = hk_chance(60);
+    int32 sd = SDstart(path, rw ? DFACC_RDWR : DFACC_READ);
+    if (sd == FAIL) { hk_fail("nc-open", "SDstart on a netCDF-classic file (rw %d)", rw); goto out; }
+    int32 nds = 0, nga = 0;
+    if (SDfileinfo(sd, &nds, &nga) == FAIL || nds != 2) { hk_fail("nc-info", "SDfileinfo: %d data sets, 2 expected", (int)nds); SDend(sd); goto out; }
+    NcVar *vs[2] = {&fx, &rc};
+    uint8_t *touched[2] = {calloc((size_t)fx.ncell, 1), calloc((size_t)recs * M, 1)};
+    for (int pass = 0; pass < 2; pass++) {
+        for (int vi = 0; vi < 2; vi++) {
+            NcVar *v = vs[vi];
+            int isrec = vi == 1;
+            int32 sds = SDselect(sd, vi), r_, d_[MAXRANK], nt_, na_; char nmb[64];
+            if (sds == FAIL || SDgetinfo(sds, nmb, &r_, d_, &nt_, &na_) == FAIL) { hk_fail("nc-info", "SDselect / SDgetinfo %d", vi); continue; }
+            int okinfo = r_ == v->rank && nt_ == v->nt;
+            for (int i = 0; i < v->rank && okinfo; i++) if (d_[i] != v->dims[i]) okinfo = 0;
+            if (!okinfo) { hk_fail("nc-info", "data set %d: rank %d nt %d dims %d,%d; expected rank %d nt %d dims %d,%d", vi, (int)r_, (int)nt_, (int)d_[0], (int)d_[1], v->rank, (int)v->nt, (int)v->dims[0], (int)v->dims[1]); SDendaccess(sds); continue; }
+            long vbytes = isrec ? (long)recs * rc.vsize : v->ncell * v->xsz;
+            int32 ws[3], wst[3], wc[3];
+            /* every page boundary inside the variable, both ends */
+            for (long pb = (v->begin / B) * B; pb <= v->begin + vbytes + B; pb += B) {
+                for (int side = 0; side < 2; side++) {
+                    nc_window(v, isrec ? recs : -1, rc.vsize, pb - (side ? v->xsz : 0), ws, wst, wc);
+                    if (rw && pass == 0 && hk_chance(50)) nc_write_slab(v, sds, isrec ? recs : -1, ws, wst, wc, touched[vi]);
+                    nc_window(v, isrec ? recs : -1, rc.vsize, pb - (side ? v->xsz : 0), ws, wst, wc);
+                    nc_check_slab(v, sds, isrec ? recs : -1, ws, wst, wc, pass ? "window-reopened" : "window");
+                }
+            }
+            for (int i = 0; i < v->rank; i++) { ws[i] = 0; wst[i] = 1; wc[i] = v->dims[i]; }
+            nc_check_slab(v, sds, isrec ? recs : -1, ws, wst, wc, pass ? "whole-reopened" : "whole");
+            SDendaccess(sds);
+        }
+        if (SDend(sd) == FAIL) hk_fail("sd-end", "SDend on a netCDF-classic file (rw %d)", rw);
+        sd = FAIL;
+        if (pass == 0) {
+            /* the file itself: every byte outside the cells written is what it was, every cell written holds the big-endian value */
+            FILE *f = fopen(path, "rb"); uint8_t *now = calloc(1, (size_t)flen + 16); long got = f ? (long)fread(now, 1, (size_t)flen + 16, f) : -1; if (f) fclose(f);
+            for (int vi = 0; vi < 2; vi++) { NcVar *v = vs[vi]; long nc_ = vi ? recs * M : fx.ncell; for (long q = 0; q < nc_; q++) if (touched[vi][q] == 1) nc_file_elem(v, q, img + v->begin + q * v->xsz); else if (touched[vi][q] == 2) memcpy(img + v->begin + q * v->xsz, now + v->begin + q * v->xsz, (size_t)v->xsz); }
+            if (got != flen) hk_fail("nc-file-bytes", "the file is %ld bytes long after the session, %ld before (rw %d)", got, flen, rw);
+            else for (long b = 0; b < flen; b++) if (now[b] != img[b]) { hk_fail("nc-file-bytes", "file byte %ld is 0x%02x, expected 0x%02x (header %ld, fx %ld..%ld, rc %ld.., page %ld, rw %d)", b, now[b], img[b], hlen, fx.begin, fx.begin + fx.ncell * e, rc.begin, B, rw); break; }
+            free(now);
+            sd = SDstart(path, DFACC_READ);
+            if (sd == FAIL) { hk_fail("nc-open", "SDstart after the session"); break; }
+        }
+    }
+    free(touched[0]); free(touched[1]);
+out:
+    unlink(path);
+    free(img); free(fx.val); free(rc.val);
+}
+
 static void run_case(int k)
 {
+    if (big_mode) { if (k % 8 == 5) case_netcdf(k); else case_big(k); return; }
     if (k % 3 == 0) case_placement(k); else case_array(k);
     case_maxcontig(); /* after the older kinds: their random streams stay what they were */
     case_shape_unit();
     case_coordck_unit();
 }
 
-int main(int argc, char **argv) { extern int H4_ncopts; H4_ncopts = getenv("HK_DEBUG") ? 2 : 0; return hk_main(argc, argv, "sd"); }
+int main(int argc, char **argv)
+{
+    extern int H4_ncopts; H4_ncopts = getenv("HK_DEBUG") ? 2 : 0;
+    if (argc > 4 && strcmp(argv[4], "big") == 0) big_mode = 1;
+    return hk_main(argc, argv, "sd");
+}
